@@ -38,7 +38,7 @@ RULE = (
     "history is dirty/has extra refs; distinct by construction"
 )
 ASSUMPTIONS = ["git 2.x in PATH, identity and dates fixed by the driver", "a kill -9 of the process between worktree creation and clean-up is out of scope (no implementation could clean up)",
-               "a fault injected into a clean-up command itself makes restoration impossible by construction; only exception masking is judged there"]
+               "a fault injected into `worktree remove` or `branch -D` themselves makes restoration impossible by construction; only exception masking is judged there (a single fault in `worktree prune` is judged fully)"]
 MANIFEST = {
     "category": "fault_enumeration",
     "text": "Exhaustive single-fault (quick) / pair-of-faults (thorough) injection at every interception point (git subprocess calls, temporary directory, finder, loader stages, every extension event, diff items) of load_git / check on 10 scripted repository histories (incl. user branches named like the temporary ones), with full repository + TMPDIR snapshot comparison usability checks of the returned objects and the requirement that the returned tree is the one at the reference, on the real _griffe.git / loader / cli code.",
@@ -372,7 +372,9 @@ def run_once(griffe, history, op, plan, template, baseline_leaks=()):
             outcome = "raise:" + type(e).__name__
         after = snapshot(repo, root)
         fault_labels = [inj.log[i] if i < len(inj.log) else "?" for i in sorted(plan)]
-        in_cleanup = any(any(c in l for c in ("worktree-remove", "worktree-prune", "branch--D", "branch-D")) for l in fault_labels)
+        # (a fault in `worktree prune` ALONE is judged like any other: pruning is redundant once `worktree remove --force` has done its work,
+        # and the steps after it run whatever happens to it)
+        in_cleanup = any(any(c in l for c in ("worktree-remove", "branch--D", "branch-D")) for l in fault_labels) or (len(fault_labels) > 1 and any("worktree-prune" in l for l in fault_labels))
         ctx = "+".join(f"{plan[i]}@{(inj.log[i] if i < len(inj.log) else '?')}" for i in sorted(plan)) or "no-fault"
         if not in_cleanup:
             for k in before:
